@@ -120,7 +120,11 @@ def render(prog, fn_chain=None):
             items = _params_src(s["ps"], owner, vals) + (["**kwargs"] if s["kw"] else [])
             src.append("")
             src.append(f"def f{cid}_{j}({', '.join(items)}):")
-            call = f"f{cid}_{j + 1}" if (s["kw"] and s["fw"]["k"] == "next") else None
+            call = None
+            if s["kw"] and s["fw"]["k"] == "next":
+                call = f"f{cid}_{j + 1}"
+            elif s["kw"] and s["fw"]["k"] == "new":
+                call = f"C{s['fw']['b']}"
             src.extend(_body_src(s, owner, f"Q{cid}.{j}", vals, call, "    "))
             src.append("")
 
@@ -141,7 +145,7 @@ def render(prog, fn_chain=None):
             if i["kw"]:
                 k = i["fw"]["k"]
                 call = {"super0": "super().__init__", "superB": f"super(C{i['fw']['b']}, self).__init__", "func": f"f{c}_1",
-                        "meth": "self.m", "ignore": None}[k]
+                        "meth": "self.m", "new": f"C{i['fw']['b']}", "ignore": None}[k]
             body.extend(_body_src(i, f"C{c}", f"P{c}", vals, call, "        "))
         if cl["m"]["has"]:
             if body:
@@ -202,7 +206,6 @@ def universe(prog, fn_chain=None):
 
     if fn_chain is not None:
         chain_names(fn_chain)
-        return sorted(names)
     for cl in prog["classes"]:
         for s in (cl["init"], cl["m"]):
             names.update(p["n"] for p in s["ps"])
@@ -326,8 +329,8 @@ def observe_parser(target, is_class, vals, offer_by_name):
             t = "int"
         elif th is str:
             t = "str"
-        elif getattr(th, "__origin__", None) is typing.Union and typing.Any in getattr(th, "__args__", ()):
-            t = "none"
+        elif th is typing.Any or (getattr(th, "__origin__", None) is typing.Union and typing.Any in getattr(th, "__args__", ())):
+            t = "none"  # no annotation in the source: whatever permissive type the parser infers (the property does not say)
         else:
             t = "?" + repr(th)
         dv = getattr(a, "default", None)
@@ -401,7 +404,7 @@ def _replay_chunk(job):
             try:
                 target = getattr(mod, f"C{comp['c']}") if comp["k"] == "cls" else getattr(mod, "f0_1")
                 univ = sorted(case["univ"])
-                obs = {"h": case["h"], "table_summary": None}
+                obs = {"h": case["h"]}
                 rows = interp_table(mod, target, univ)
                 obs["summary"] = summarise(rows)
                 obs["ncalls"] = len(rows)
@@ -484,7 +487,9 @@ def classify(rep, prog, comp, exp, obs, source, how):
             viol("resolver-names", f"get_signature_parameters offers {names} but the legal named parameters are {ref_names} "
                  f"(missing {missing}, not legal {extra}, duplicated {dup}) [{shape}]", {"observed": res})
         else:
-            bad = [p for p in res if p["d"] != "cond" and (p["n"], p["o"], p["t"], p["d"]) not in ref_set]
+            # a Conditional parameter is documented behaviour exactly where the transcribed algorithm predicts one
+            alg_cond = {p["n"] for p in (alg or []) if p["d"] == "cond"}
+            bad = [p for p in res if ((p["n"], p["o"], p["t"], p["d"]) not in ref_set) if not (p["d"] == "cond" and (p["n"] in alg_cond or dev != "-"))]
             if bad:
                 viol("resolver-signature", f"resolved parameter(s) {[(p['n'], p['o'], p['t'], p['d']) for p in bad]} do not carry the type/default "
                      f"of the signature they are bound in {sorted(ref_set)} [{shape}]", {"observed": res})
@@ -509,7 +514,7 @@ def classify(rep, prog, comp, exp, obs, source, how):
                 bad = []
                 for p in po["added"]:
                     e = by[p["n"]]
-                    if p["d"] == "cond":
+                    if p["d"] == "cond" and (p["n"] in {q["n"] for q in (alg or []) if q["d"] == "cond"} or dev != "-"):
                         continue
                     if p["t"] != e["t"] or p["d"] != e["d"] or (p["d"] == "dflt" and p["o"] != e["o"]):
                         bad.append((p, e))
@@ -551,14 +556,19 @@ NOFWD = {"k": "ignore", "b": 0, "hard": [], "q": [], "qop": "pop", "chain": []}
 NOSIG = {"has": False, "ps": [], "kw": False, "fw": dict(NOFWD)}
 
 
-def rand_chain(rnd, names, depth):
+def rand_chain(rnd, names, depth, classes_below=0):
     chain = []
     for j in range(depth):
         last = j == depth - 1
-        kw = (not last) or rnd.random() < 0.4
+        kw = (not last) or rnd.random() < 0.5
         fw = dict(NOFWD)
         if kw:
-            if last:
+            if last and classes_below and rnd.random() < 0.5:
+                fw["k"] = "new"
+                fw["b"] = rnd.randint(1, classes_below)
+                if rnd.random() < 0.3:
+                    fw["hard"] = sorted(rnd.sample(names, 1))
+            elif last:
                 fw["k"] = "ignore"
                 if rnd.random() < 0.5:
                     fw["q"] = sorted(rnd.sample(names, rnd.randint(1, 2)))
@@ -593,7 +603,7 @@ def rand_program(rnd):
             init["ps"] = rand_params(rnd, names, 3)
             if rnd.random() < 0.8:
                 init["kw"] = True
-                k = rnd.choices(["ignore", "super0", "superB", "func", "meth"], [1, 6, 2, 2, 1])[0]
+                k = rnd.choices(["ignore", "super0", "superB", "func", "meth", "new"], [1, 6, 2, 2, 1, 1 if c > 1 else 0])[0]
                 fw = dict(NOFWD)
                 fw["k"] = k
                 if k == "ignore":
@@ -607,8 +617,10 @@ def rand_program(rnd):
                         fw["q"] = sorted(rnd.sample(names, 1))
                     if k == "superB":
                         fw["b"] = c  # replaced below by a class of the linearisation
+                    if k == "new":
+                        fw["b"] = rnd.randint(1, c - 1)
                     if k == "func":
-                        fw["chain"] = rand_chain(rnd, names, rnd.randint(1, 3))
+                        fw["chain"] = rand_chain(rnd, names, rnd.randint(1, 3), c - 1)
                     if k == "meth":
                         m = {"has": True, "ps": rand_params(rnd, names, 2), "kw": False, "fw": dict(NOFWD)}
                 init["fw"] = fw
@@ -626,7 +638,7 @@ def _trace_chunk(job):
         for sd in seeds:
             rnd = common.rng(f"C13/prog/{sd}")
             prog = rand_program(rnd)
-            fn_chain = rand_chain(rnd, RNAMES[:4], rnd.randint(1, 3)) if rnd.random() < 0.5 else None
+            fn_chain = rand_chain(rnd, RNAMES[:4], rnd.randint(1, 3), len(prog["classes"])) if rnd.random() < 0.5 else None
             # super(B, self): B must be in the linearisation of the class; ask Python for it
             source, decls, vals = render(prog, fn_chain)
             try:
@@ -705,17 +717,20 @@ def main(argv):
     seed = common.seed()
     workers = int(os.environ.get("VERIF_TLC_WORKERS", "16"))
     # ---- MC
-    cfgname = f"MC_Resolver_{tier}"
-    mc = tlc.run("MC_Resolver", cfgname, workers=workers, timeout=2400, heap="8g", env={"SEL_SEED": seed % 100000})
-    rep.add_tlc(cfgname, mc)
-    if mc.errors or mc.rc != 0:
-        machinery_failure(PID, "TLC failed on MC_Resolver:\n" + mc.stdout[-3000:])
-    fails = [p for p in mc.printed if isinstance(p, dict) and "fail" in p]
-    cases = [p for p in mc.printed if isinstance(p, dict) and "callable" in p]
+    cfgs = ["MC_Resolver_quick"] if tier == "quick" else ["MC_Resolver_thorough", "MC_Resolver_thorough3", "MC_Resolver_thorough4"]
+    fails, cases, n_states = [], [], 0
+    for cfgname in cfgs:
+        mc = tlc.run("MC_Resolver", cfgname, workers=workers, timeout=3000, heap="8g", env={"SEL_SEED": seed % 100000})
+        rep.add_tlc(cfgname, mc)
+        if mc.errors or mc.rc != 0:
+            machinery_failure(PID, f"TLC failed on MC_Resolver ({cfgname}):\n" + mc.stdout[-3000:])
+        fails += [p for p in mc.printed if isinstance(p, dict) and "fail" in p]
+        cases += [p for p in mc.printed if isinstance(p, dict) and "callable" in p]
+        n_states += mc.distinct
     if not cases:
         machinery_failure(PID, "MC_Resolver printed no program")
     cases.sort(key=lambda c: json.dumps([c["prog"], c["comp"]], sort_keys=True))  # TLC's workers print in no fixed order
-    rep.extra["mc_programs_checked"] = mc.distinct
+    rep.extra["mc_programs_checked"] = n_states
     rep.extra["mc_programs_printed"] = len(cases)
     # design-level counterexamples (Alg does not refine Ref / a law of Ref fails): replayed like the others below
     for f in fails[:50]:
@@ -725,9 +740,6 @@ def main(argv):
     # ---- REPLAY
     size = max(20, min(400, len(cases) // (NPROC * 4) + 1))
     results = run_pool(_replay_chunk, chunks(cases, "r", size))
-    by_h = {}
-    for c in cases:
-        by_h.setdefault(json.dumps([c["prog"], c["comp"]], sort_keys=True), c)
     if len(results) != len(cases):
         machinery_failure(PID, f"replayed {len(results)} of {len(cases)} programs")
     model_bad = []
@@ -768,7 +780,7 @@ def main(argv):
     rep.extra["deviation_programs_replayed"] = devs_seen
 
     # ---- TRACE
-    nprog = 700 if tier == "quick" else 12000
+    nprog = 500 if tier == "quick" else 8000
     seeds = [f"{seed}/{i}" for i in range(nprog)]
     recs = run_pool(_trace_chunk, chunks(seeds, "t", max(10, nprog // (NPROC * 4))))
     herr = [r for r in recs if "harness_error" in r]
@@ -847,15 +859,41 @@ def main(argv):
                 "chain of seeded random programs; non-trivial & distinct = distinct pairs whose legal parameters come from at least two different signatures "
                 "(something really is resolved through **kwargs) or that hit a named deviation")
     rep.exhaustive = False
-    rep.explanation = (f"MC_Resolver enumerated exhaustively every program within its bounds ({mc.distinct} states, one per program prefix) and checked the laws of the "
+    rep.explanation = (f"MC_Resolver enumerated exhaustively every program within its bounds ({n_states} states, one per program prefix) and checked the laws of the "
                        f"reference and Alg-refines-Ref on each; {len(cases)} of them were written to source files and run on the interpreter ({n_calls} calls) and on "
                        f"jsonargparse; {len(recs)} components of {nprog} random programs beyond the bounds were observed and validated by TLC against Trace_Resolver")
     return rep.finish()
 
 
+def replay(path):
+    """./check C13 --replay <file>: write the recorded program to a source file again and show what the real code does"""
+    d = json.loads(open(path).read())
+    case = d["case"]
+    prog, comp = case["program"], case["component"]
+    chain = comp["chain"] if comp["k"] == "fn" else None
+    source, decls, vals = render(prog, chain)
+    sc = Scratch("replay")
+    try:
+        mod, mpath = sc.load(source)
+        target = getattr(mod, f"C{comp['c']}") if comp["k"] == "cls" else getattr(mod, "f0_1")
+        offer = case.get("spec_offer")
+        obs = observe_component(mod, target, comp["k"] == "cls", universe(prog, chain), vals,
+                                {x["n"]: x for x in offer} if offer else None, with_table=True)
+        print(source)
+        print("key:", d.get("key"))
+        print("what:", d.get("what"))
+        print("interpreter (accepted keyword sets / bindings):", json.dumps(summarise(obs["table"])))
+        print("specification, legal parameters:", json.dumps(offer))
+        print("get_signature_parameters:", json.dumps(obs["resolved"]))
+        print("parser:", json.dumps(obs["parser"]))
+        print("instantiate with every offered parameter:", json.dumps(obs.get("inst")))
+    finally:
+        sc.close()
+    return 0
+
+
 if __name__ == "__main__":
     args = sys.argv[1:]
     if args and args[0] == "--replay":
-        print(open(args[1]).read())
-        sys.exit(0)
+        sys.exit(replay(args[1]))
     sys.exit(main(args))
